@@ -192,6 +192,28 @@ Definition splice_w (z : bool) (c : sctl) : list (sctl * bool) :=
 Definition splice_cstep (drain : bool) (c : sctl) (z : bool) : list (sctl * bool) :=
   splice_h drain c ++ splice_w z c.
 
+(* THE PREMISE of the SpliceBlob protocol, read off the source of diskCache.Put as go2coq prints
+   it (Gen.DiskSrc.src_diskCache_Put, pinned verbatim in Bridge/Bridge_Disk.v): the feeder
+   goroutine terminates because Put consumes the read end on every return path — SpliceBlob never
+   closes pr itself.  In the text: the function opens with the deferred drain
+   `if r != nil { io.Copy(io.Discard, r) }`, and r is assigned exactly once, to nil, right after
+   writeAndCloseFile succeeded (it has read r to EOF then).  [put_drains src] decides that; the
+   theorems about the code are stated for [splice_cstep (put_drains src)]. *)
+Fixpoint count_sub (p s : string) : nat :=
+  match s with
+  | EmptyString => O
+  | String _ t => ((if starts_with p s then 1 else 0) + count_sub p t)%nat
+  end.
+Definition put_drain_prefix : string :=
+  "func(ctx context.Context, kind cache.EntryKind, hash string, size int64, r io.Reader) (rErr error) { defer func() { if r != nil { _, _ = io.Copy(io.Discard, r) } }()"%string.
+Definition put_release_point : string :=
+  "sizeOnDisk, err = c.writeAndCloseFile(ctx, r, kind, hash, size, tf) if err != nil { return internalErr(err) } r = nil"%string.
+Definition put_drains (src : string) : bool :=
+  starts_with put_drain_prefix src
+  && Nat.eqb (count_sub put_release_point src) 1
+  && Nat.eqb (count_sub " r = "%string src) 1     (* no other assignment to r ... *)
+  && Nat.eqb (count_sub " r := "%string src) 0.   (* ... and r is not shadowed *)
+
 Definition splice_init : sctl := mkS HStart WLoop ChEmpty false false.
 Definition splice_final (c : sctl) : bool :=
   hpc_eqb (s_h c) HRet && wpc_eqb (s_w c) WExit && s_wclosed c && negb (s_rcopen c).
